@@ -15,7 +15,7 @@ func init() {
 	register(&PropMeta{
 		ID:          "C02",
 		Level:       "other",
-		Explanation: "Decides that the id → hand index → player index translation is carried unchanged through the whole hand: (R1) the hand's player settings are appended once per entry of the hand index list, in order, and the only later change is a dealer label on entry 0; (R2) in each of the 9 action methods the index given to the hand engine is FindGamePlayerIdx(own id), every statistics store and the published action use FindPlayerIndexFromGamePlayerIndex(that same index), and the published id is the caller's own; (R3) settlement maps result r to PlayerStates[GamePlayerIndexes[r.Idx]] (as C01.R2); (R4) the hand index list is written only as empty, as the list builder's result on the clone, or as the remap after a leave, and every element the builder appends is read from the seat map at i mod N inside a full-circle loop i = s … s+N-1 with the same N, under the dealt-in flag; (R5) the two translators have their defining shapes; (R6) joins append to the player list and patch a copy of the seat map only at the new seats. NOT decided: that scan order equals clockwise order numerically for every fake-dealer computation; what pokerface does with entry i.",
+		Explanation: "Decides that the id → hand index → player index translation is carried unchanged through the whole hand: (R1) the hand's player settings are appended once per entry of the hand index list, in order, and the only later change is a dealer label on entry 0; (R2) in each of the 9 action methods the index given to the hand engine is FindGamePlayerIdx(own id), every statistics store and the published action use FindPlayerIndexFromGamePlayerIndex(that same index), and the published id is the caller's own; (R3) settlement maps result r to PlayerStates[GamePlayerIndexes[r.Idx]] (as C01.R2); (R4) the hand index list is written only as empty, as the list builder's result on the clone, or as the remap after a leave, and every element the builder appends is read from the seat map at i mod N inside a full-circle loop i = s … s+N-1 with the same N, under the dealt-in flag; (R5) the two translators have their defining shapes; (R6) joins append to the player list and patch a copy of the seat map only at the new seats. Also decided since (see the rule list): the leave remap, the start seat of the hand list path by path (R4), the copy of the dealt-in flags after the rotation (R7). NOT decided: that the composition of these steps yields clockwise order for every reachable seat layout (each step is decided path by path, not their product over all layouts); what pokerface does with entry i.",
 		Rules: map[string]string{
 			"R1": "hand list construction: one PlayerSetting per hand-index entry, in order; only later mutation is the dealer label on entry 0",
 			"R2": "action translation: one hand index and one player index per method, both derived from the caller's own id",
